@@ -84,3 +84,51 @@ def cut_grid2geo(cv, ell_args):
         NEWTON['args'] = args
         return tuple(out)
     return E.cut_loops(cv.grid2geo, cv, hook)
+
+
+# ------------------------------------------------------------------------------------------------ generic recording summaries
+class Rec:
+    """call summary for composition obligations: records every call with ALL actual arguments (defaults resolved against the
+    real signature) and returns uninterpreted-function terms of those arguments (objects flattened by `flat`)"""
+
+    def __init__(self, real_fn, name, nout, flat, wrap=None):
+        import inspect
+        self.real, self.name, self.nout, self.flat, self.wrap = real_fn, name, nout, flat, wrap
+        self.sig = inspect.signature(real_fn)
+        self.calls = []
+        self.fns = {}
+
+    def __call__(self, *a, **kw):
+        ba = self.sig.bind(*a, **kw)
+        ba.apply_defaults()
+        b = dict(ba.arguments)
+        args, key = self.flat(b)
+        fs = self.fns.setdefault((len(args), key), [z3.Function('%s%s!%d' % (self.name, key, i), *([S.R] * (len(args) + 1))) for i in range(self.nout)])
+        outs = tuple(Sym(f(*args)) for f in fs)
+        self.calls.append(dict(bound=b, args=args, key=key, outs=outs))
+        res = self.wrap(b, outs) if self.wrap else outs
+        return res if (self.wrap or self.nout > 1) else outs[0]
+
+
+def flat_generic(order):
+    """flatten bound arguments: numbers/symbols -> terms, ellipsoid -> (a, 1/f), projection -> 5 numbers, angle objects ->
+    their decimal value, strings/bools/None -> part of the UF's name (a different string is a different function)"""
+    def f(b):
+        args, key = [], ''
+        for k in order:
+            v = b[k]
+            if hasattr(v, 'semimaj'):
+                args += ell_flat(v)
+            elif hasattr(v, 'cmscale'):
+                args += prj_flat(v)
+            elif isinstance(v, (str, bool)) or v is None:
+                key += '|%s=%s' % (k, str(v).lower())
+            elif hasattr(v, 'dec') and callable(getattr(v, 'dec')) and type(v).__name__.endswith('Angle'):
+                args.append(lift(v.dec()))
+            elif hasattr(v, 'shape'):
+                key += '|%s=array' % k
+                args += [lift(x) for x in v.flatten()]
+            else:
+                args.append(lift(v))
+        return args, key
+    return f
